@@ -2,6 +2,7 @@ import FxVerif.Model.C09
 import FxVerif.Model.C09Shape
 import FxVerif.Model.C09Dep
 import FxVerif.Proofs.C09
+import FxVerif.Proofs.C09Ext
 import FxVerif.Gen.C09
 /-!
 # C09 — a precompile call is all-or-nothing across Cosmos state and EVM state
@@ -481,6 +482,41 @@ example : ({ (hdr0 true : CallHdr Nat) with xfer := some (· + 1) }).xfer = some
     ({ (hdr0 true : CallHdr Nat) with xfer := some (· + 1) }).funded 0 = true := ⟨rfl, rfl⟩
 
 end Dep
+
+/-! ## round 3 — what a dropped action error can and cannot break
+
+`dropped_action_error_keeps_frame_without_effects` shows the SUCCESS half failing for a `Run` that loses the error of its
+native action.  The FAILURE half of the property does not need that condition: for every program whose precompile nodes
+have the three other shape conditions (`Restoring`: no keeper write ahead of the action, no `recover()`, no EVM call after
+a keeper write) — action errors dropped or not — the journal discipline holds and a transaction that does not end
+normally commits nothing. -/
+
+/-- `journal_undo` under the weaker shape condition -/
+theorem journal_undo_even_if_action_errors_are_dropped (fuel : Nat) (ro : Bool) (gas : Nat) (p : List (Prog N)) (s : St N)
+    (hr : Restoring p) (hna : (exec fuel ro gas p s).1 ≠ .abort) :
+    (exec fuel ro gas p s).2.1.revertTo s.journal.length = s :=
+  revertTo_of_ext (exec_inv fuel ro gas p s hr hna)
+
+/-- the failure half of `atomicity` under the weaker shape condition: explicit revert, invalid opcode, a failing
+precompile, a panic, or gas running out at ANY point ⇒ native store, EVM storage and logs committed are the initial ones -/
+theorem failed_tx_commits_nothing_even_if_action_errors_are_dropped (fuel gas : Nat) (p : List (Prog N)) (v : View N)
+    (hr : Restoring p) (h : (runTx fuel gas p v).1 ≠ .ok) : (runTx fuel gas p v).2.1 = v := by
+  unfold runTx at h ⊢
+  by_cases hok : (exec fuel false gas p ({ toView := v, journal := [] } : St N)).1 = .ok
+  · simp [hok] at h
+  · by_cases hab : (exec fuel false gas p ({ toView := v, journal := [] } : St N)).1 = .abort
+    · simp [hab]
+    · have hrv := revertTo_of_ext (exec_inv fuel false gas p ({ toView := v, journal := [] } : St N) hr hab)
+      simp only [List.length_nil] at hrv
+      simp [hok, hab, hrv, commit]
+
+/-- every clean program is restoring (so the two theorems above extend `journal_undo` / `atomicity`'s first half) -/
+theorem clean_is_restoring {p : List (Prog N)} (h : Clean p) : Restoring p := restoring_of_cleanProg h
+
+-- non-vacuity: the witness program of `dropped_action_error_keeps_frame_without_effects` is restoring and not clean
+example : Restoring (N := Nat) [.pre (hdr0 false) 0 { RunShape.tidy with dropsActionError := true } id [] (fun _ _ n => (.err, n + 1, []))] :=
+  .pre (by decide) (by simp) .nil
+example : ({ RunShape.tidy with dropsActionError := true } : RunShape).clean = false := by decide
 
 /-! ## programs whose keeper parts never panic (in particular the two-valued actions of the first version of this model) -/
 
